@@ -444,6 +444,50 @@ def _recorded_fn_shapes():
     return _FN_SHAPES
 
 
+_CALL_INDEX = None
+
+
+def _new_param_default(fn, name, n_known_positional, mod, known=()):
+    """(term, type, python value) of the constant default of parameter `name` when no call in src/lian can override it, else None"""
+    a = fn.args
+    pos = a.posonlyargs + a.args
+    defaults = dict(zip([x.arg for x in pos][len(pos) - len(a.defaults):], a.defaults))
+    for x, d in zip(a.kwonlyargs, a.kw_defaults):
+        if d is not None:
+            defaults[x.arg] = d
+    if name not in defaults:
+        return None
+    order = [x.arg for x in pos]
+    if name in order and any(order.index(x) > order.index(name) for x in order if x != name and x in known):
+        return None          # inserted BEFORE a parameter the contract knows: positional calls would shift
+    try:
+        cv = source.const_eval(mod, defaults[name])
+        t, ty = const_to_term(cv)
+    except Exception:      # noqa
+        return None
+    global _CALL_INDEX
+    if _CALL_INDEX is None:
+        _CALL_INDEX = []
+        root = os.path.join(source.REPO, 'src', 'lian')
+        for dp, dn, fns in os.walk(root):
+            for f_ in fns:
+                if f_.endswith('.py'):
+                    try:
+                        tree = ast.parse(open(os.path.join(dp, f_), encoding='utf-8').read())
+                    except (SyntaxError, OSError):
+                        continue
+                    for n in ast.walk(tree):
+                        if isinstance(n, ast.Call):
+                            callee = n.func.attr if isinstance(n.func, ast.Attribute) else (n.func.id if isinstance(n.func, ast.Name) else None)
+                            _CALL_INDEX.append((callee, len(n.args), {k.arg for k in n.keywords}, any(isinstance(x, ast.Starred) for x in n.args) or any(k.arg is None for k in n.keywords)))
+    is_method = bool(pos) and pos[0].arg in ('self', 'cls')
+    limit = n_known_positional - (1 if is_method else 0)
+    for callee, nargs, kws, star in _CALL_INDEX:
+        if callee == fn.name and (name in kws or nargs > limit or star):
+            return None
+    return t, ty, cv
+
+
 def comprehensions_as_recorded_loops(fn, contract_name):
     """A loop the contract has a specification for (recorded header in loop_headers.json) that now appears as `T = [elt for x in it if c]` is put back into loop form
     (`T = []; for x in it: if c: T.append(elt)`, an `A if C else B` element with a call in a branch as if/else around the append), so that the loop specification
@@ -925,12 +969,22 @@ class Exec:
             if not (set(names) >= set(c.params)):
                 raise Unsupported('*args/**kwargs in function under contract')
         entry = {}
-        for nme in names:
+        defaulted = {}
+        for nme in list(names):
             if nme not in c.params:
-                raise source.SourceError(f'{c.name}: parameter {nme} has no declared type (contract out of date)')
+                # a parameter added after the contract was written, with a constant default that NO call in src/lian overrides (no such keyword anywhere, no call of a
+                # function of this name with more positional arguments than the contract knows): it has its default value in every execution
+                dv = _new_param_default(self.fn, nme, len([a for a in args.posonlyargs + args.args if a.arg in c.params]), self.mod, set(c.params))
+                if dv is None:
+                    raise source.SourceError(f'{c.name}: parameter {nme} has no declared type (contract out of date)')
+                defaulted[nme] = dv
+                names.remove(nme)
+                self.notes.append(f'parameter {nme} is new, defaults to {dv[2]!r} and is passed by no call site in src/lian: bound to its default')
         for nme in c.params:
             if nme not in names:
                 raise source.SourceError(f'{c.name}: contract parameter {nme} not in the real signature (contract out of date)')
+        for nme, (t_, ty_, _) in defaulted.items():
+            st.env[nme] = V(t_, ty_)
         for nme in names:
             ty = c.params[nme]
             t = z3.Const(f'p_{nme}', S.PyObj())
@@ -1625,6 +1679,13 @@ class Exec:
             if fn is not None:
                 self.used_trusted.add(fn.trusted_name)
                 return fn(self, st, V(o.t, ty))
+        if ty.kind == 'any' and not any(attr in info.fields for info in self.reg.classes.values()) and not attr.startswith('__'):
+            # reading an attribute no contract class declares from an untyped value (e.g. self.options.debug): an unknown value, like an unmodelled attribute
+            self.notes.append(f'attribute {attr} read from an untyped value ({desc}): unknown value')
+            rv = V(S.fresh('um_attr'), S.Any)
+            rv.um = True
+            st.assume(below(rv.t, st.next_ref))
+            return rv
         raise Unsupported(f'attribute {attr} on {ty} ({desc})')
 
     def ev_Tuple(self, e, st):
